@@ -199,3 +199,9 @@ func TestC08S(t *testing.T) {
 		Strategies: []string{"prepare", "commit", "vc", "pp", "replay", "replay", "nv", "support"}}
 	simProperty(t, o, func(w *sim.World) bool { return w.Obs.ByzStored > 0 })
 }
+
+// C13 (engine S part): per-node monotonicity invariants, deterministic, on generated cluster executions with syncs.
+func TestC13S(t *testing.T) {
+	o := simOpts{Focus: "C13", MaxN: 7, MaxHeight: 3, MaxSteps: 150, ByzBias: 60}
+	simProperty(t, o, func(w *sim.World) bool { return w.Mon.Facts["sync"] > 0 || w.Obs.HeightsDone >= 2 })
+}
